@@ -61,7 +61,36 @@ def gen_axes(rng, big):
         n = len(axes[0])
         axes[1] = gen_knots(rng, n)
         regular = False
+    # per-axis monotonic direction is an input dimension: all ascending, all descending (Chebyshev-like,
+    # reversed(), scaled(-1)) or an independent coin per axis (mixed directions, scaled([1, -2]))
+    u = rng.random()
+    if u < 0.3:
+        down = [False] * ndim
+    elif u < 0.45:
+        down = [True] * ndim
+    else:
+        down = [bool(rng.random() < 0.5) for _ in range(ndim)]
+    axes = [a[::-1] if d else a for a, d in zip(axes, down)]
     return regular, axes
+
+
+def dirs_of(axes):
+    return ''.join('d' if (len(a) > 1 and a[0] > a[-1]) else 'u' for a in axes)
+
+
+def pick_via(rng, axes):
+    """how the source grid object is built: directly from its coordinates, or from an all-ascending grid through
+    scaled(per-axis signed factors) / reversed()"""
+    d = dirs_of(axes)
+    u = rng.random()
+    if u < 0.5:
+        return ['direct']
+    if u < 0.65 and set(d) == {'d'}:
+        return ['reversed']
+    f = [float(rng.choice([1.0, 2.0, 0.5])) * (-1.0 if c == 'd' else 1.0) for c in d]
+    if len(set(f)) == 1 and rng.random() < 0.5:
+        return ['scaled-scalar', f[0]]
+    return ['scaled', f]
 
 
 def affine_coeffs(rng, ndim):
@@ -86,7 +115,8 @@ def gen_sep(rng, big):
         pts = []
         for _ in range(m):
             p = []
-            for ax in axes:
+            for ax0 in axes:
+                ax = sorted(ax0)
                 u = rng.random()
                 if u < 0.15:
                     p.append(float(rng.choice(ax)))                      # on a knot
@@ -100,16 +130,19 @@ def gen_sep(rng, big):
             pts.append(p)
         case['pts'] = pts
     elif ek == 'separated':
-        case['eaxes'] = [sorted(set(dyadic(rng, ax[0], ax[-1], 5) for _ in range(int(rng.integers(1, 4))))) for ax in axes]
+        case['eaxes'] = [sorted(set(dyadic(rng, min(ax), max(ax), 5) for _ in range(int(rng.integers(1, 4)))), reverse=bool(rng.random() < 0.4)) for ax in axes]
     elif ek == 'regular':
         ea = []
-        for ax in axes:
+        for ax0 in axes:
+            ax = sorted(ax0)
             n = int(rng.integers(1, 4))
             d = (ax[-1] - ax[0]) / 8.0
             z = ax[0] + d * int(rng.integers(0, 3))
-            ea.append([z + d * i for i in range(n)])
+            e = [z + d * i for i in range(n)]
+            ea.append(e[::-1] if rng.random() < 0.4 else e)
         case['eaxes'] = ea
     case['route'] = str(rng.choice(['dispatch', 'separated-default', 'separated-fill0']))
+    case['via'] = pick_via(rng, axes)
     return case
 
 
@@ -267,9 +300,9 @@ def gen_bin(rng, big):
             'vals': [dyadic(rng, -8, 8, 3) for _ in range(ncomp * nfine)],
             'give_grid': bool(rng.random() < 0.5) or not regular}
     if regular:
-        case['delta'] = [float(rng.choice([0.25, 0.5, 1.0, 2.0])) for _ in range(ndim)]
+        case['delta'] = [float(rng.choice([0.25, 0.5, 1.0, 2.0])) * (-1.0 if rng.random() < 0.4 else 1.0) for _ in range(ndim)]
     else:
-        case['axes'] = [gen_knots(rng, d * s, 2) for d in dims]
+        case['axes'] = [(lambda k: k[::-1] if rng.random() < 0.4 else k)(gen_knots(rng, d * s, 2)) for d in dims]
         if any(len(a) < 2 for a in case['axes']):
             case['regular'] = True
             case['delta'] = [1.0] * ndim
@@ -286,15 +319,21 @@ def gen_ss(rng, big):
     scalar_n = bool(rng.random() < 0.5)
     if scalar_n:
         ns = [ns[0]] * ndim
-    return {'fam': 'ss', 'regular': regular, 'axes': axes, 'c0': c0, 'c': c, 'q': quad, 'ns': ns, 'scalar_n': scalar_n,
+    return {'fam': 'ss', 'via': pick_via(rng, axes), 'regular': regular, 'axes': axes, 'c0': c0, 'c': c, 'q': quad, 'ns': ns, 'scalar_n': scalar_n,
             'stat': str(rng.choice(['mean', 'mean', 'sum']))}
 
 
 # ---------------------------------------------------------------------------------------------
 # real code
 
-def make_grid(axes, regular):
+def make_grid(axes, regular, via=None):
     import hcipy
+    if via and via[0] != 'direct':
+        if via[0] == 'reversed':
+            return make_grid([a[::-1] for a in axes], regular).reversed()
+        f = via[1] if via[0] == 'scaled' else [via[1]] * len(axes)
+        base = make_grid([[x / fk for x in a] for a, fk in zip(axes, f)], regular)
+        return base.scaled(via[1] if via[0] == 'scaled-scalar' else np.array(f))
     if regular:
         dims = [len(a) for a in axes]
         delta = [(a[1] - a[0]) if len(a) > 1 else 1.0 for a in axes]
@@ -343,7 +382,10 @@ def run_sep(case):
     bad, lines, cmps = [], [], []
     axes = case['axes']
     ndim = len(axes)
-    grid = make_grid(axes, case['regular'])
+    grid = make_grid(axes, case['regular'], case.get('via'))
+    real_axes = [[float(v) for v in c] for c in grid.separated_coords]
+    axes_as_requested = (real_axes == [[float(v) for v in a] for a in axes])
+    axes = real_axes       # the coordinates the grid object really has are the truth for oracle and model
     src = grid_points(axes)
     if 'affine' in case:
         c0, c = case['affine']
@@ -362,7 +404,7 @@ def run_sep(case):
         egrid = make_grid(case['eaxes'], ek == 'regular' and all(len(a) > 1 for a in case['eaxes']))
     square = len(set(len(a) for a in axes)) == 1
     cls = 'nonsquare' if not square else ('square-different-axes' if any(a != axes[0] for a in axes) else 'square-same-axes')
-    inside = [all(ax[0] <= x <= ax[-1] for ax, x in zip(axes, p)) for p in pts]
+    inside = [all(min(ax) <= x <= max(ax) for ax, x in zip(axes, p)) for p in pts]
     route = case['route']
     # ---- linear
     try:
@@ -424,7 +466,8 @@ def run_sep(case):
                 break
         lines.append('C18 near-sep new %s %s %s' % (rat_lists(axes), rat_list(vals), rat_lists(pts)))
         cmps.append(('near-sep', gotn, {'nan': None}))
-    info = {'class': cls, 'ndim': ndim, 'n_inside': sum(inside), 'n_outside': len(inside) - sum(inside), 'npts': len(pts)}
+    info = {'class': cls, 'ndim': ndim, 'n_inside': sum(inside), 'n_outside': len(inside) - sum(inside), 'npts': len(pts),
+            'dirs': dirs_of(axes), 'axes_as_requested': axes_as_requested}
     return bad, lines, cmps, info
 
 
@@ -694,7 +737,8 @@ def run_ss(case):
     bad, lines, cmps = [], [], []
     axes = case['axes']
     nd = len(axes)
-    grid = make_grid(axes, case['regular'])
+    grid = make_grid(axes, case['regular'], case.get('via'))
+    axes = [[float(v) for v in c_] for c_ in grid.separated_coords]
     c0, c, q = case['c0'], case['c'], case['q']
     calls = []
 
@@ -779,12 +823,18 @@ def check_case(ctx, case, all_lines, index):
         ctx.count('%s:%s' % (fam, 'regular' if case['regular'] else 'irregular-separated'))
     if fam == 'sep':
         ctx.count('sep:class:' + info['class'])
+        ctx.count('sep:dirs:' + info['dirs'])
+        ctx.count('sep:via:' + case.get('via', ['direct'])[0])
+        if case['eval_kind'] in ('separated', 'regular'):
+            ctx.count('sep:eval-dirs:' + dirs_of(case['eaxes']))
+        if not info['axes_as_requested']:
+            ctx.count('sep:grid-coordinates-differ-from-request')
         ctx.count('sep:eval:' + case['eval_kind'])
         ctx.count('sep:route:' + case['route'])
         ctx.count('sep:points_inside', info['n_inside'])
         ctx.count('sep:points_outside', info['n_outside'])
         ctx.count('sep:' + ('affine' if 'affine' in case else 'random-values'))
-        sig = (fam, tuple(len(a) for a in case['axes']), case['regular'], 'affine' in case, case['eval_kind'], case['route'], info['npts'])
+        sig = (fam, tuple(len(a) for a in case['axes']), info['dirs'], case['regular'], 'affine' in case, case['eval_kind'], case['route'], info['npts'])
     elif fam == 'uns':
         ctx.count('uns:route:' + case['route'])
         ctx.count('uns:cloud:' + case.get('cloud', 'scattered'))
@@ -800,12 +850,14 @@ def check_case(ctx, case, all_lines, index):
     elif fam == 'bin':
         ctx.count('bin:ndim=%d' % len(case['dims']))
         ctx.count('bin:s=%d' % case['s'])
+        ctx.count('bin:dirs:' + (''.join('d' if d < 0 else 'u' for d in case['delta']) if case['regular'] else dirs_of(case['axes'])))
         ctx.count('bin:stat:' + case['stat'])
         ctx.count('bin:tensor_shape:%s' % (case['tshape'],))
         ctx.count('bin:' + ('regular' if case['regular'] else 'separated-weighted' if case['stat'] == 'mean' else 'separated'))
         sig = (fam, tuple(case['dims']), case['s'], tuple(case['tshape']), case['stat'], case['regular'])
     else:
         ctx.count('ss:stat:' + case['stat'])
+        ctx.count('ss:dirs:' + dirs_of(case['axes']))
         ctx.count('ss:' + ('affine' if info.get('affine') else 'quadratic'))
         ctx.count('ss:dithers', info.get('dithers', 0))
         sig = (fam, tuple(len(a) for a in case['axes']), tuple(case['ns']), case['stat'], info.get('affine'))
